@@ -23,7 +23,7 @@ FLAGS = ["public", "visible", "allow_delete", "allow_move", "allow_rename", "par
 NAMES = ["a", "b", "c", "Ωμ", "x y", "a/b", "d.e", "", "名前", "a"]
 PG_NAMES = ["pg1", "pg2", "pg3"]
 
-MUTATORS = ["create_uid", "group", "object", "data", "values", "rename", "flag", "move", "copy", "remove", "pg_add",
+MUTATORS = ["create_uid", "remove_many", "group", "object", "data", "values", "rename", "flag", "move", "copy", "remove", "pg_add",
             "pg_remove_props", "pg_delete", "metadata", "file", "comment"]
 CONTROL = ["reopen", "gc", "hold", "release", "observe"]
 
@@ -90,14 +90,17 @@ def op_strategy(kind: str, cfg: dict):
                                       "ws": st.sampled_from([0, 0, 1])})
     if kind == "remove":
         return st.fixed_dictionaries({"op": st.just("remove"), "who": idx,
-                                      "via": st.sampled_from(["ws", "parent"])})
+                                      "via": st.sampled_from(["ws", "parent"]), "ws": st.sampled_from([0, 0, 0, 1])})
+    if kind == "remove_many":
+        return st.fixed_dictionaries({"op": st.just("remove_many"), "parent": idx,
+                                      "who": st.lists(idx, min_size=2, max_size=3)})
     if kind == "pg_add":
         return st.fixed_dictionaries({"op": st.just("pg_add"), "obj": idx,
                                       "data": st.lists(idx, min_size=1, max_size=3),
                                       "name": st.sampled_from(PG_NAMES)})
     if kind == "pg_remove_props":
         return st.fixed_dictionaries({"op": st.just("pg_remove_props"), "pg": idx,
-                                      "data": st.lists(idx, min_size=1, max_size=2)})
+                                      "data": st.lists(idx, min_size=1, max_size=4)})
     if kind == "pg_delete":
         return st.fixed_dictionaries({"op": st.just("pg_delete"), "pg": idx})
     if kind == "metadata":
@@ -113,7 +116,8 @@ def op_strategy(kind: str, cfg: dict):
     if kind == "create_uid":
         return st.fixed_dictionaries({"op": st.just("create_uid"), "kind": st.sampled_from(["group", "object", "data"]),
                                       "source": st.sampled_from(["fresh", "live_same", "live_other", "removed", "live_same"]),
-                                      "who": idx, "parent": idx, "name": name})
+                                      "who": idx, "parent": idx, "name": name,
+                                      "form": st.sampled_from(["uuid", "uuid", "str", "braced"])})
     if kind in ("reopen", "gc", "release", "observe"):
         return st.just({"op": kind})
     if kind == "hold":
@@ -128,7 +132,7 @@ DEFAULT_CFG = {
     "data_kinds": ["float", "int", "bool", "ref", "text"],
     "weights": {"group": 3, "object": 5, "data": 6, "values": 3, "rename": 2, "flag": 2, "move": 4, "copy": 4,
                 "remove": 4, "pg_add": 4, "pg_remove_props": 2, "pg_delete": 1, "metadata": 1, "file": 1,
-                "comment": 0, "create_uid": 0, "reopen": 3, "gc": 2, "hold": 1, "release": 1, "observe": 1},
+                "comment": 0, "create_uid": 1, "remove_many": 1, "reopen": 3, "gc": 2, "hold": 1, "release": 1, "observe": 1},
     "ws2": True,
     "prefix": [],
 }
@@ -523,17 +527,20 @@ class TreeRun:
         raw_before = node_digests(rawsnap(wd.ws.geoh5))
         self.parents.add(parent_uid)
         self.res.label("create_uid:" + source)
+        form = op.get("form", "uuid")
+        given = {"uuid": uuid.UUID(uid), "str": uid, "braced": "{" + uid + "}"}[form]  # all accepted spellings
+        self.res.label("create_uid:form=" + form)
         raised = None
         new = None
         try:
             if kind == "group":
-                new = F.get_class("ContainerGroup").create(wd.ws, parent=parent, name=op["name"], uid=uuid.UUID(uid))
+                new = F.get_class("ContainerGroup").create(wd.ws, parent=parent, name=op["name"], uid=given)
             elif kind == "object":
-                new = F.get_class("Points").create(wd.ws, parent=parent, name=op["name"], uid=uuid.UUID(uid),
+                new = F.get_class("Points").create(wd.ws, parent=parent, name=op["name"], uid=given,
                                                    vertices=np.zeros((2, 3)))
             else:
                 new = parent.add_data({op["name"]: {"values": np.asarray([1.5]), "association": "OBJECT",
-                                                    "uid": uuid.UUID(uid)}})
+                                                    "uid": given}})
         except Exception as exc:
             # keep no reference to the exception: its traceback would keep the refused entity alive
             raised = (type(exc).__name__, str(exc)[:200])
@@ -1000,6 +1007,19 @@ class TreeRun:
         if self.stopped:
             return
         umap = {s: str(c.uid) for s, c in pairs}
+        if cross:
+            taken_pgs = {u for n in twd.nodes.values() for u in (n.get("pgs") or {})}
+            for s_uid, c_ent in pairs:
+                if s_uid not in existing and str(c_ent.uid) != s_uid:
+                    self.fail("C06", "cross-copy-uid-not-preserved", "copy", swd.nodes[s_uid]["cls"], "child",
+                              f"uid {s_uid} was free in the target workspace, the copied child got {c_ent.uid}")
+                live_pgs = {pg.name: str(pg.uid) for pg in (getattr(c_ent, "property_groups", None) or [])}
+                for pg_uid, pg in (swd.nodes[s_uid].get("pgs") or {}).items():
+                    got = live_pgs.get(pg["name"])
+                    if got is not None and pg_uid not in taken_pgs and pg_uid not in existing and got != pg_uid and (
+                            with_children or s_uid != src_uid):
+                        self.fail("C06", "cross-copy-uid-not-preserved", "copy", "PropertyGroup", "",
+                                  f"property group uid {pg_uid} was free in the target workspace, the copy got {got}")
         seen = set()
         for s_uid, c_ent in pairs:
             c_uid = str(c_ent.uid)
@@ -1057,6 +1077,9 @@ class TreeRun:
     # ------------------------------------------------------------------ remove
     def op_remove(self, op):
         wd = self.w
+        if op.get("ws") and len(self.worlds) > 1 and len(self.worlds[1].nodes) > 1:
+            wd = self.worlds[1]  # removal in the second workspace (then the uid is free there again)
+            self.res.label("remove:in-second-workspace")
         cands = [u for u in wd.nodes if u != wd.root]
         uid = self.pick(cands, op["who"])
         if uid is None:
@@ -1121,6 +1144,44 @@ class TreeRun:
         gc.collect()
         if mode != "no-listing":
             self.check_absent(wd, gone, "remove_" + op["via"], cls, lookup_first=(mode == "lookup-first"))
+        return True
+
+    def op_remove_many(self, op):
+        """parent.remove_children([several children, possibly of different kinds]) in one call."""
+        wd = self.w
+        parents = [u for u in wd.nodes if len(wd.nodes[u].get("children", [])) >= 2]
+        parent_uid = self.pick(parents, op["parent"])
+        if parent_uid is None:
+            return False
+        kids = [c for c in wd.nodes[parent_uid]["children"] if c in wd.nodes]
+        chosen = []
+        for idx in op["who"]:
+            c = self.pick(kids, idx)
+            if c not in chosen:
+                chosen.append(c)
+        if len(chosen) < 2:
+            return False
+        parent = wd.entity(parent_uid)
+        ents = [wd.entity(c) for c in chosen]
+        kinds = {wd.kind[c] for c in chosen}
+        self.parents.add(parent_uid)
+        self.call("several", parent.remove_children, ents)
+        del ents, parent
+        gone = []
+        for c in chosen:
+            cls = wd.nodes[c]["cls"]
+            names = {g: wd.nodes[g].get("name") for g in [c] + wd.descendants(c)}
+            self.removed_names.update(names)
+            for g in wd.drop(c):
+                self.removed[g] = (cls, "parent", "listing-first")
+                gone.append(g)
+        self.held = [h for h in self.held if str(h.uid) not in gone]
+        self.res.label("remove_many:" + ("mixed-kinds" if len(kinds) > 1 else "one-kind"))
+        self.touch()
+        gc.collect()
+        for listing in ("groups", "objects", "data"):
+            getattr(wd.ws, listing)  # (the lazy deletion of parent-removed nodes needs a listing: known finding)
+        self.check_absent(wd, gone, "remove_many", "several", lookup_first=False)
         return True
 
     def check_absent(self, wd, gone, opkind, cls, where="live", lookup_first=True):
@@ -1233,11 +1294,14 @@ class TreeRun:
             return False
         obj_uid, pg_uid = pick
         pg_model = wd.nodes[obj_uid]["pgs"][pg_uid]
-        chosen = []
-        for idx in op["data"]:
-            c = self.pick(pg_model["props"], idx)
-            if c not in chosen:
-                chosen.append(c)
+        # the list may mix members, non-members (ignored by the library) and repeats, in any order
+        pool = pg_model["props"] + [c for c in wd.nodes[obj_uid]["children"]
+                                    if wd.kind.get(c) == "data" and c not in pg_model["props"]]
+        chosen = [self.pick(pool, idx) for idx in op["data"]]
+        if not any(c in pg_model["props"] for c in chosen):
+            chosen.append(pg_model["props"][op["pg"] % len(pg_model["props"])])
+        if any(c not in pg_model["props"] for c in chosen) or len(set(chosen)) < len(chosen):
+            self.res.label("pg_remove_props:non-members-or-repeats")
         obj = wd.entity(obj_uid)
         pg = [p for p in obj.property_groups if str(p.uid) == pg_uid]
         if not pg:
